@@ -17,7 +17,8 @@ within its width").
 -/
 namespace Rare.C20
 
-abbrev Rune := Nat
+/-- a rune is a code point (plain `Nat`, so that `omega` sees through it) -/
+scoped notation "Rune" => Nat
 
 def runeError : Rune := 0xFFFD
 
@@ -181,7 +182,7 @@ def Term.blank (width height : Nat) (onlcr : Bool) : Term :=
 /-! ### Update histories -/
 
 /-- the text most recently written to line `i` -/
-def latest {α : Type} (h : List (Int × α)) (i : Int) : Option α :=
+def latest {κ α : Type} [DecidableEq κ] (h : List (κ × α)) (i : κ) : Option α :=
   h.foldl (fun acc u => if u.1 = i then some u.2 else acc) none
 
 /-- largest line index of a history (0 for the empty one) – `TermWriter.maxLine` -/
